@@ -281,6 +281,7 @@ def check(ctx):
     run.floor('R6c', n6, 20, 'unmatched-path instances')
     n29 = stream.r29_no_shared_fields(ctx, stream.package_phase_functions(ctx))
     run.floor('R29', n29, 8, 'schema field stores')
+    stream.r29_no_shared_descriptor_values(ctx, stream.package_phase_functions(ctx))
     # concatenate's run detection: an unselected resource next to the selected run is neither swallowed nor reordered
     from checks import C16 as _C16
     _C16.concatenate_clauses(ctx)
